@@ -862,12 +862,15 @@ class SVG:
         for el in self.xpath("//svg:svg | //svg:defs | //svg:g | //svg:path | //svg:stop"):
             _del_attrs(el, _xlink_href_attr_name())
 
-        self._remove_orphaned_gradients()
-
         # After simplification only gradient defs should be referenced
         # It's illegal for picosvg to leave anything else in defs
         for unused_el in [el for el in defs if not _is_gradient(el)]:
             defs.remove(unused_el)
+        self.elements = None  # force elements to reload
+
+        # only now: what sat in defs is neither a user of a gradient nor part of
+        # the order the remaining gradients are settled in
+        self._remove_orphaned_gradients()
 
         self.elements = None  # force elements to reload
 
@@ -986,8 +989,7 @@ class SVG:
                 _try_remove_group(context.element)
 
         # and gradients whose users are gone or got their own copy
-        if updates:
-            self._remove_orphaned_gradients()
+        self._remove_orphaned_gradients()
 
         return self
 
